@@ -4,7 +4,7 @@ import ast
 from fractions import Fraction
 
 from sa import AnalysisError
-from sa.kinds import (key, utext, call_name, recv_text, calls_in, node_calls, canon_compare, oriented)
+from sa.kinds import (key, utext, call_name, recv_text, calls_in, node_calls, canon_compare, oriented, guard_pairs)
 from sa.cfg import walk_calls, walk_nodes
 from sa.astutil import canon_text as ct, gp
 
@@ -86,14 +86,27 @@ def run(ctx, rep):
         fn = prog.func(q)
         if param not in fn.params:
             raise AnalysisError("%s: ladder parameter %s not found" % (q, param))
-        used = {n.id for n in walk_nodes(fn.node.body, ast.Name) if n.id in ladder_tables}
-        allowed = set()
-        if q == "utils.price_ticks_away":
-            d = [s for s in walk_nodes(fn.node.body, ast.Assign) if utext(s.targets[0]) == param]
-            if len(d) == 1 and isinstance(d[0].value, ast.IfExp) and utext(d[0].value.orelse) == param:
-                allowed = {n.id for n in ast.walk(d[0].value.body) if isinstance(n, ast.Name)}
-        rep.check(used <= allowed, "R3", key(fn, None, "result depends on the ladder passed in, not on one fixed ladder table"), fn, None,
-                  "references %s" % sorted(used - allowed))
+        cfgl = ctx.cfg(fn)
+        bad_refs = []
+        for nd in cfgl.live_nodes():
+            refs = [x.id for e in nd.exprs for x in ast.walk(e) if isinstance(x, ast.Name) and x.id in ladder_tables]
+            if not refs:
+                continue
+            # the only accepted use: the default when no ladder was passed - `param = TABLE` where param is falsy,
+            # or `param = param or TABLE`
+            a = nd.ast if nd.kind == "stmt" and isinstance(nd.ast, ast.Assign) else None
+            ok_ref = False
+            if a is not None and utext(a.targets[0]) == param:
+                v_ = a.value
+                if isinstance(v_, ast.Name) and (param, False) in guard_pairs(cfgl, nd.id):
+                    ok_ref = True
+                if isinstance(v_, ast.BoolOp) and isinstance(v_.op, ast.Or) and utext(v_.values[0]) == param and \
+                        all(isinstance(x, ast.Name) for x in v_.values[1:]):
+                    ok_ref = True
+            if not ok_ref:
+                bad_refs += refs
+        rep.check(not bad_refs, "R3", key(fn, None, "result depends on the ladder passed in, not on one fixed ladder table"), fn, None,
+                  "references %s" % sorted(set(bad_refs)))
 
     # ------------------------------------------------------------------ R2 OrderValidation
     ov = prog.cls("OrderValidation")
